@@ -1314,4 +1314,67 @@ theorem iluFactor_identity_dropU (F : Flavour Rat Rat) (P : IluParams Rat Rat) (
       (P.col j).get i + ((iluFactor F P (dropBothOracle nrm2 d0 P.milu callL callU) b).E.getD j #[]).get i :=
   iluFactor_identity_with_error magLaws_rat F P (dropBothOracle nrm2 d0 P.milu callL callU) hcol b h j hj i hi
 
+theorem idPerm_get (n t : Nat) (h : t < n) : ((Array.range n).map Int.ofNat)[t]! = (t : Int) := by
+  rw [getElem!_pos _ t (by simpa using h)]; simp
+
+/-- **C15 (what the U side of `dropBothOracle` drops).** For a call whose segment order lists distinct positions of `us`:
+a listed position that the oracle DROPS either failed the first test `quota > 0 && |u| >= drop_tol` (effective arguments
+of l.91-93) or the second rule ran with a threshold `tol` and `|u| <= tol`; a listed position it KEEPS passed the first
+test (`dropU_threshold` / `dropU_kept_subset` applied to the multipliers of the column). -/
+theorem dropUOracle_entries (d0 : Rat) (milu : Milu) (c : UCall) (us : List Rat)
+    (hnd : c.order.Nodup) (hlt : ∀ t ∈ c.order, t < us.length) (t : Nat) (ht : t ∈ c.order) :
+    ((((ucore d0 milu c us).2.1.a.toList.take (ucore d0 milu c us).2.1.cnt).map (·.1)).contains (t : Int) = false →
+      keepC (uopsRat (fun _ => 0) d0) (effTol (uopsRat (fun _ => 0) d0) c.rule c.dropTol) (effQuota c.rule c.quota c.n)
+        (us.toArray[t]!) = false ∨
+      ∃ tol, (ucore d0 milu c us).2.2.1 = some tol ∧ |us.toArray[t]!| ≤ tol) ∧
+    ((((ucore d0 milu c us).2.1.a.toList.take (ucore d0 milu c us).2.1.cnt).map (·.1)).contains (t : Int) = true →
+      keepC (uopsRat (fun _ => 0) d0) (effTol (uopsRat (fun _ => 0) d0) c.rule c.dropTol) (effQuota c.rule c.quota c.n)
+        (us.toArray[t]!) = true) := by
+  have hinv := dropCore_inv (uopsRat (fun _ => 0) d0) milu ((Array.range us.length).map Int.ofNat)
+    c.rule c.dropTol c.quota c.n us.toArray (Array.replicate c.n 0) c.order
+  unfold ucore
+  dsimp only at hinv
+  generalize dropCore (uopsRat (fun _ => 0) d0) c.rule milu c.dropTol c.quota c.n ((Array.range us.length).map Int.ofNat)
+    us.toArray (Array.replicate c.n 0) c.order = core at hinv ⊢
+  obtain ⟨ks, hP, hk, hks, hds, hS2, hrm, -⟩ := hinv
+  rw [visits_nodup _ _ _ hnd] at hP
+  have hz : (uopsRat (fun _ => 0) d0).zeroK = 0 := rfl
+  constructor
+  · intro hnot
+    have hmem : (t, us.toArray[t]!) ∈ ks ++ core.1.dropped :=
+      hP.symm.subset (List.mem_map.mpr ⟨t, ht, rfl⟩)
+    rcases List.mem_append.mp hmem with h | h
+    · right
+      have h1 : ((t : Int), us.toArray[t]!) ∈ core.1.kept.toList := by
+        rw [hk]
+        refine List.mem_map.mpr ⟨(t, us.toArray[t]!), List.mem_reverse.mpr h, ?_⟩
+        simp only [idPerm_get _ _ (hlt t ht)]
+      rcases List.mem_append.mp (hS2.symm.subset h1) with h2 | h2
+      · exfalso
+        have : (t : Int) ∈ (core.2.1.a.toList.take core.2.1.cnt).map (·.1) :=
+          List.mem_map.mpr ⟨_, h2, rfl⟩
+        rw [← List.contains_iff_mem] at this
+        rw [this] at hnot; exact Bool.noConfusion hnot
+      · obtain ⟨tol, e1, e2⟩ := hrm _ h2
+        refine ⟨tol, e1, ?_⟩
+        have : rabs (us.toArray[t]!) ≤ tol := by simpa [uopsRat, opsRat] using e2
+        rwa [rabs_eq_abs] at this
+    · left; exact hds (t, us.toArray[t]!) h
+  · intro hin
+    rw [List.contains_iff_mem] at hin
+    obtain ⟨e, he, het⟩ := List.mem_map.mp hin
+    have h1 : e ∈ core.1.kept.toList := hS2.subset (List.mem_append_left _ he)
+    rw [hk] at h1
+    obtain ⟨x, hx, rfl⟩ := List.mem_map.mp h1
+    have hx' := List.mem_reverse.mp hx
+    have hxv : x ∈ c.order.map fun t => (t, us.toArray[t]!) := hP.subset (List.mem_append_left _ hx')
+    obtain ⟨t', ht', rfl⟩ := List.mem_map.mp hxv
+    simp only [idPerm_get _ _ (hlt t' ht')] at het
+    have : t' = t := by exact_mod_cast het
+    subst this
+    exact hks (t', us.toArray[t']!) hx'
+
+example := dropUOracle_entries 1000 .smilu1 { order := [1, 0, 2], rule := exRule, dropTol := 1/2, quota := 1, n := 3 } [3, 1/4, 1]
+  (by decide) (by decide) 0 (by decide)
+
 end Slu.Ilu
